@@ -1020,7 +1020,7 @@ def run(ctx):
     ctx.tolerances["arc angles"] = "tol_arc(r)/r radians"
 
     seed = ctx.seed
-    pts = point_lattice(seed, 3 if q else 12)          # 8 corner + generic + 7 special
+    pts = point_lattice(seed, 1 if q else 12)          # 8 corner + 7 special + generic: 16 / 27 points
     sub = point_lattice(seed, 1)
     combos = [(m, t) for m in MODELS for t in TFS]
     dom = {"models": MODELS, "transforms": list(TFS), "lattice": pts}
